@@ -100,14 +100,69 @@ func parseFloatPLY(data []byte) (*floatPLY, error) {
 
 // plyCloud is a splat cloud together with the expected value of every PLY property.
 type plyCloud struct {
-	n, rest     int
+	n           int
+	rest        []int // the numbers k of the f_rest_k attributes the cloud carries (any subset of 0…44)
 	withNormals bool
 	class       string
 	mesh        modeling.Mesh
 	want        map[string][]float64
+	outOfLayout string // a float1 attribute named outside f_rest_0…44 (evidence only)
 }
 
-func genPlyCloud(r *rand.Rand, n, rest int, withNormals bool, class string) *plyCloud {
+// contig is the contiguous numbering f_rest_0 … f_rest_{k-1}.
+func contig(k int) []int {
+	out := make([]int, k)
+	for i := range out {
+		out[i] = i
+	}
+	return out
+}
+
+// restLayout draws the f_rest numbering of a cloud. Modes 0–3 are the contiguous layouts
+// of SH degree 0–3 (0 / 9 / 24 / 45 names); the others have GAPS: a single name, the high
+// band only, degree-1 or degree-2 harmonics kept in the 45-wide per-channel layout
+// (15 coefficients per colour channel), a random subset, the low bands stripped.
+func restLayout(r *rand.Rand, mode int) (names []int, label string) {
+	switch mode {
+	case 0, 1, 2, 3:
+		k := []int{0, 9, 24, 45}[mode]
+		return contig(k), fmt.Sprintf("contiguous-%d", k)
+	case 4:
+		return []int{r.Intn(45)}, "single-name"
+	case 5:
+		lo := 9 + r.Intn(30)
+		for k := lo; k < 45; k++ {
+			names = append(names, k)
+		}
+		return names, "high-band-only"
+	case 6:
+		return []int{0, 1, 2, 15, 16, 17, 30, 31, 32}, "degree-1-in-channel-layout"
+	case 7:
+		for ch := 0; ch < 3; ch++ {
+			for k := 0; k < 8; k++ {
+				names = append(names, ch*15+k)
+			}
+		}
+		return names, "degree-2-in-channel-layout"
+	case 8:
+		for k := 0; k < 45; k++ {
+			if r.Intn(3) == 0 {
+				names = append(names, k)
+			}
+		}
+		if len(names) == 0 {
+			names = []int{44}
+		}
+		return names, "random-subset"
+	}
+	lo := 1 + r.Intn(20)
+	for k := lo; k < 45; k++ {
+		names = append(names, k)
+	}
+	return names, "low-bands-stripped"
+}
+
+func genPlyCloud(r *rand.Rand, n int, rest []int, withNormals bool, class string) *plyCloud {
 	val := func() float64 {
 		cl := class
 		if cl == "mixed" {
@@ -172,7 +227,7 @@ func genPlyCloud(r *rand.Rand, n, rest int, withNormals bool, class string) *ply
 	if modeling.OpacityAttribute != "opacity" {
 		delete(v1data, "opacity")
 	}
-	for k := 0; k < rest; k++ {
+	for _, k := range rest {
 		scalar(fmt.Sprintf("f_rest_%d", k))
 	}
 	mesh := modeling.NewPointCloud(map[string][]vector4.Float64{modeling.RotationAttribute: rot}, v3data, nil, v1data, nil)
@@ -185,21 +240,40 @@ func splatPly(c *run.Ctx) (res run.Result) {
 	if n > 60 {
 		n = 60
 	}
-	rest := []int{0, 9, 24, 45}[c.Case%4]
-	withNormals := (c.Case/4)%2 == 0
+	mode := c.Case % 10
+	rest, layout := restLayout(r, mode)
+	withNormals := (c.Case/10)%2 == 0
 	class := []string{"unit", "f64", "large", "tiny", "mixed"}[r.Intn(5)]
 	pc := genPlyCloud(r, n, rest, withNormals, class)
-	res.Sig = fmt.Sprintf("n%s/rest%d/normals:%v/%s", nBucket(n), rest, withNormals, class)
-	res.Nontrivial = n >= 1
-	res.SetAdd("splatply/configs", fmt.Sprintf("rest%d/normals:%v", rest, withNormals))
-	res.SetAdd("splatply/counts", nBucket(n))
-	if n >= 1 { // f_rest_0 … f_rest_{rest-1}: the higher-order harmonics of SH degree 0 / 1 / 2 / 3
-		res.Count(fmt.Sprintf("splatply/clouds_with_sh_degree_%d", map[int]int{0: 0, 9: 1, 24: 2, 45: 3}[rest]), 1)
+	// Names outside the exporter's layout (f_rest_45 and beyond, malformed suffixes) are not
+	// written by the unchanged tree; they are kept out of the verdict and only counted.
+	if c.Case%25 == 7 && n > 0 {
+		extra := []string{"f_rest_45", "f_rest_100", "f_rest_x", "f_rest_"}[r.Intn(4)]
+		a := make([]float64, n)
+		for i := range a {
+			a[i] = 1 + r.Float64()
+		}
+		pc.mesh = pc.mesh.SetFloat1Attribute(extra, a)
+		pc.outOfLayout = extra
 	}
-
+	res.Sig = fmt.Sprintf("n%s/%s/normals:%v/%s", nBucket(n), layout, withNormals, class)
+	res.Nontrivial = n >= 1
+	res.SetAdd("splatply/configs", fmt.Sprintf("%s/normals:%v", layout, withNormals))
+	res.SetAdd("splatply/counts", nBucket(n))
+	if n >= 1 {
+		res.Count("splatply/clouds_with_f_rest_layout/"+layout, 1)
+		if mode < 4 { // f_rest_0 … f_rest_{k-1}: the higher-order harmonics of SH degree 0 / 1 / 2 / 3
+			res.Count(fmt.Sprintf("splatply/clouds_with_sh_degree_%d", mode), 1)
+		} else {
+			res.Count("splatply/clouds_with_gaps_in_f_rest_numbering", 1)
+			for _, k := range rest {
+				res.SetAdd("splatply/f_rest_numbers_in_gapped_clouds", fmt.Sprint(k))
+			}
+		}
+	}
 	exported := checkSplatPly(c, &res, pc, "")
 	if c.Case < 2 && n > 0 {
-		res.Sample = map[string]any{"splats": n, "f_rest": rest, "normals": withNormals, "value_class": class, "export_bytes": exported}
+		res.Sample = map[string]any{"splats": n, "f_rest_numbers": rest, "normals": withNormals, "value_class": class, "export_bytes": exported}
 	}
 	return
 }
@@ -209,7 +283,7 @@ func splatPly(c *run.Ctx) (res run.Result) {
 // appended to the violation sites. Returns the number of bytes exported.
 func checkSplatPly(c *run.Ctx, res *run.Result, pc *plyCloud, ctx string) (exported int) {
 	n, rest, withNormals, mesh, want := pc.n, pc.rest, pc.withNormals, pc.mesh, pc.want
-	input := fmt.Sprintf("cloud of %d splats, %d f_rest, normals %v", n, rest, withNormals)
+	input := fmt.Sprintf("cloud of %d splats, f_rest numbers %v, normals %v", n, rest, withNormals)
 	buf := &bytes.Buffer{}
 	var werr error
 	c.Note("SplatPly.Write " + input)
@@ -348,8 +422,15 @@ func checkSplatPly(c *run.Ctx, res *run.Result, pc *plyCloud, ctx string) (expor
 		}
 	}
 	check1(modeling.OpacityAttribute, "opacity")
-	for k := 0; k < rest; k++ {
+	for _, k := range rest {
 		check1(fmt.Sprintf("f_rest_%d", k), fmt.Sprintf("f_rest_%d", k))
+	}
+	if pc.outOfLayout != "" { // evidence only: the exporter's layout ends at f_rest_44
+		if back.HasFloat1Attribute(pc.outOfLayout) {
+			res.Count("splatply/out_of_layout_f_rest_name_exported", 1)
+		} else {
+			res.Count("splatply/out_of_layout_f_rest_name_not_exported", 1)
+		}
 	}
 	return
 }
